@@ -273,7 +273,7 @@ OTHERS_UNTOUCHED = ("forall(Ref('Future'), lambda f: implies(f is not {fut}, G.f
                     "G.fut_n_res[f] == old(G.fut_n_res[f]) and G.fut_exc[f] == old(G.fut_exc[f]) and G.fut_res[f] == old(G.fut_res[f])))")
 NO_FUTURE_TOUCHED = "G.fut_n_exc == old(G.fut_n_exc) and G.fut_n_res == old(G.fut_n_res) and G.fut_exc == old(G.fut_exc) and G.fut_res == old(G.fut_res)"
 
-c = M.contract(f"{EMT}.process_result_item", props=["C03", "C04", "C07"])
+c = M.contract(f"{EMT}.process_result_item", props=["C03", "C04", "C07", "C08"])
 c.param("self", T.Ref(EMT)).param("result_item", T.Union(T.Int, T.Ref("_ResultItem")))
 EXEC = "as_(select(G.referent, self.executor_reference), 'ProcessPoolExecutor')"
 c.rely("manager-shares-the-executor-tables",
